@@ -112,9 +112,9 @@ def plan_for(prop, tier, seed):
             for bi, base in enumerate(bases):
                 for pi, p in enumerate(perms3(base)):
                     P.add(Entry("bw_ord%d_%d_fi" % (bi, pi), "bytewise", "first", p), *fams)
-                    if withE:
+                    if withE and (not q or bi == 0):
                         P.add(Entry("bw_ord%d_%d_fi_e" % (bi, pi), "bytewise", "first", p),
-                              "E:m=lm,L=%d" % (3 if q else 4))
+                              "E:m=lm,L=%d" % (2 if q else 4))
             for pi, p in enumerate(perms3(["東京", "東京都", "京都"])):
                 if q and pi % 2:
                     continue
@@ -142,10 +142,10 @@ def plan_for(prop, tier, seed):
         std_core(TSTD, "nosuf")
         P.hand += ["i_bw::step_no_suffix", "i_cw::step_no_suffix"]
     elif prop == "C03":
-        lm_core("longest", ("T1", "T34", "T5"))
+        lm_core("longest", ("T1", "T2", "T34", "T5"))
         P.hand += ["i_bw::leftmost_two_calls", "i_cw::leftmost_two_calls"]
     elif prop == "C04":
-        lm_core("first", ("T1", "T34", "T5"))
+        lm_core("first", ("T1", "T2", "T34", "T5"))
         P.hand += ["i_bw::leftmost_two_calls", "i_cw::leftmost_two_calls"]
     elif prop == "C06":
         vt = ["u8", "u64", "i16", "u128", "usize", "i128"] if q else \
@@ -210,7 +210,9 @@ def plan_for(prop, tier, seed):
                 P.add(cw("thai", suffix="_e" + m), "E:m=%s,L=3" % m)
             P.add(cw("thai", "longest", suffix="_e"), "E:m=lm,L=3")
             P.add(cw("astral", suffix="_eovl"), "E:m=ovl,L=2")
-        P.hand += ["u_utf8::two_chars", "u_map::new_bijective", "i_cw::step_overlapping",
+        if not q:
+            P.hand += ["u_map::new_bijective"]
+        P.hand += ["u_utf8::two_chars", "u_utf8::three_chars_offsets", "i_cw::step_overlapping",
                    "i_cw::step_no_suffix", "i_cw::find_two_calls", "i_cw::leftmost_two_calls"]
     elif prop == "C09":
         P.hand += (U_SER_QUICK if q else U_SER_ALL)
